@@ -29,7 +29,15 @@ THEOREMS = [
     'CC.C13_polarity', 'CC.C13_netlist', 'CC.C13_realising_unique',
     'CC.C13_geometry', 'CC.C13_wire_split', 'CC.C13_order', 'CC.C13_tables',
 ]
-OPEN_STATEMENTS = []
+OPEN_STATEMENTS = [
+    'transformed drawing (rotation / translation / rescaling / wire splitting / symbol order) ⇒ the two translated circuits are '
+    'equal up to a renaming of nodes ⇒ same solution: not a theorem (C13_geometry / C13_wire_split / C13_order are lemmas about '
+    'Joined and wiresOf; injectivity of rounding∘transformation is assumed) — judged by the metamorphic oracle streams only',
+    'per-kind translation (kind, values, polarity of every symbol) against an independent Spec of the symbols: generated tables '
+    '(C13_polarity, C13_tables) + correspondence + intended-netlist oracle, no theorem',
+    'reference node: Circuit.ground_node / ground_label is the name of the node the ground symbol sits on — oracle only '
+    '(C13_gen_ground ties the model function to the code, no Spec statement about it)',
+]
 # the parser model *is* DiagramParser.py: every method, translated statement by statement
 # (harness/extract_drawparser.py → CC/Gen/DrawParser.lean), equals the hand-written model function
 LEAN_MODULE_EXTRA = ['CC.Properties.C13Gen']
